@@ -310,7 +310,7 @@ class ShardsFamily(_Base):
     if rng.random() < 0.2:
       pipes.gen_early(rng, cfg['spec'])   # aggregates on two named stages
     cfg['shards'] = rng.randrange(1, 7)
-    cfg['ibs'] = rng.choice([1, 2, 3])
+    cfg['ibs'] = rng.choice([0, 1, 2, 3])
     cfg['prefetch'] = rng.choice([1, 2, 4])
     cfg['retry_threshold'] = rng.choice([0, 1, 3, 999999, 999999])
     cfg['plan'] = gen_plan(
